@@ -11,6 +11,7 @@ import warnings
 
 repo, fn, writer, mode, k, N = sys.argv[1], sys.argv[2], sys.argv[3], sys.argv[4], int(sys.argv[5]), int(sys.argv[6])
 RENAME_AT = int(sys.argv[7]) if len(sys.argv) > 7 else 0
+OTHER_VERSION = sys.argv[8] if len(sys.argv) > 8 and sys.argv[8] != "-" else None     # the writer is "another release"
 BIG = N >= 100          # N = 100 + steps: large tensors (bond dimension 64) so that HDF5 itself flushes while writing
 N = N % 100
 BOND = 64 if BIG else 3
@@ -19,6 +20,8 @@ warnings.simplefilter("ignore")
 import numpy as np  # noqa: E402
 import oqupy  # noqa: E402
 import oqupy.process_tensor as P  # noqa: E402
+if OTHER_VERSION:
+    P.__version__ = OTHER_VERSION
 
 cnt = [0]
 
